@@ -148,9 +148,15 @@ func vC08Run(env *Zlisp, label string) {
 	if vTier() == 1 {
 		maxArity = 2
 	}
-	nargs := vChoice("nargs", maxArity+1)
 	c := vC08MakeCanary()
 	defer c.cleanup()
+	if vChoice("renamed", 2) == 1 {
+		vSetStepBudget(400000)
+		vObserve("name", name)
+		vC08Renamed(env, name, c, label)
+		return
+	}
+	nargs := vChoice("nargs", maxArity+1)
 	args := make([]Sexp, nargs)
 	wrapped := false
 	for i := range args {
@@ -215,3 +221,47 @@ func vh_C08_bare() { vC08Run(vEnvs(1)[0], "bare") }
 
 func vh_C08_standard() { vC08Run(vStdEnvs(1)[0], "standard") }
 
+
+// vC08Renamed: builtins receive the name they were invoked under, and some
+// are made by factories that branch on it.  The value bound to name is
+// aliased under the name M of each outside-world function (every key of
+// SystemFunctions that the sandbox does not bind) and invoked through a
+// variable holding the quoted alias, so that M is the call-time name; the
+// arguments are a hash and the path of the file that must not be created, or
+// that path alone.
+func vC08Renamed(env *Zlisp, name string, c vC08Canary, label string) {
+	var forbidden []string
+	for m := range SystemFunctions() {
+		if _, bound := env.FindObject(m); !bound {
+			forbidden = append(forbidden, m)
+		}
+	}
+	sort.Strings(forbidden)
+	if len(forbidden) == 0 {
+		vDone()
+	}
+	m := vPickString("as", forbidden)
+	s := func(n string) Sexp { return env.MakeSymbol(n) }
+	touch := &SexpStr{S: c.touchFile}
+	var args []Sexp
+	if vChoice("rargs", 2) == 0 {
+		args = []Sexp{vL(s("hash"), vL(s("quote"), s("k")), vI(1)), touch}
+	} else {
+		args = []Sexp{touch}
+	}
+	forms := []Sexp{
+		vL(s("def"), s(m), s(name)),
+		vL(s("def"), s("vw"), vL(s("quote"), s(m))),
+		vL(append([]Sexp{s("vw")}, args...)...),
+	}
+	var res Sexp = SexpNull
+	var err error
+	for _, f := range forms {
+		res, err, _ = vEval(env, f)
+		if err != nil {
+			break
+		}
+	}
+	vAssert(!c.effect(env, res, err), label+"-no-outside-effect-under-another-name")
+	vReach(label)
+}
